@@ -192,6 +192,39 @@ theorem carveE_of_sem_lhs {c : Ctx} {asg : List String} {lhs : CExpr} (hl : lhsO
   | imm l s => unfold CarveE; rw [CarveN]; rfl
   | _ => simp [lhsOK] at hl
 
+/-- for a plain `=` the compiled target enters `assignment_expr` through its type only -/
+theorem assignMid_eq_ty (cfg : Cfg) {cd cd' : CE} (h : cd.ty = cd'.ty) (ce : CE) :
+    assignMid cfg cd "=" ce = assignMid cfg cd' "=" ce := by
+  unfold assignMid
+  simp (config := { decide := true }) only [↓reduceIte, h]
+
+theorem assignBack_eq (cfg : Cfg) (cd cd' : CE) (src : CE) : assignBack cfg cd "=" src = assignBack cfg cd' "=" src := by
+  unfold assignBack
+  have : (("=" : String) == "=") = true := by decide
+  simp only [this, Bool.or_true, ↓reduceIte]
+
+/-- an assignment target in `lhsCarveSem`: the two lowerings compile it to the same result, or — target of a plain `=`,
+    a register whose read the code redirects to the `.new` value — to results of the same type -/
+theorem lhs_compile_rel {c : Ctx} {asg : List String} {op : String} {lhs : CExpr} (hl : lhsOK c lhs = true)
+    (h : lhsCarveSem asg op lhs = true) :
+    compileExpr ⟨asg, Cfg.asCode⟩ lhs = compileExpr ⟨asg, Cfg.fixed⟩ lhs ∨
+    (op = "=" ∧ ∃ cdA cdF, compileExpr ⟨asg, Cfg.asCode⟩ lhs = .ok cdA ∧ compileExpr ⟨asg, Cfg.fixed⟩ lhs = .ok cdF ∧
+      cdA.ty = cdF.ty) := by
+  unfold lhsCarveSem at h
+  simp only [Bool.or_eq_true, Bool.and_eq_true, beq_iff_eq] at h
+  rcases h with h | ⟨hop, h⟩
+  · exact Or.inl (expr_asCode_eq_fixed ⟨asg, Cfg.fixed⟩ lhs (carveE_of_sem_lhs hl h))
+  · refine Or.inr ⟨hop, ?_⟩
+    cases lhs with
+    | reg n k t =>
+      simp only at h
+      refine ⟨_, _, compileExpr_reg _ n k t, compileExpr_reg _ n k t, ?_⟩
+      -- `regSafe [] n k t`: the class-only type of an explicit register is the declared one
+      have hpn := pn_reg [] n k t (by rw [CarveN]; exact h)
+      simp only [compileExpr_reg, Except.map, normTy_of_not (e := .reg n k t) rfl, Except.ok.injEq, CE.mk.injEq] at hpn
+      exact hpn.2.1.symm
+    | _ => simp at h
+
 /-! ## statements, on a typed state -/
 
 /-- the result relation of statement lowering in the state `σ`: same `TSt`, effects alike from `σ` -/
@@ -199,25 +232,47 @@ def SRel (ms : MacroSem) (σ : MState) (x y : ILEffect × TSt) : Prop :=
   x.2 = y.2 ∧ ∀ subs, EEqAt ms subs σ x.1 y.1
 
 section
-variable {ms : MacroSem} (hms : MsOK ms) {c : Ctx} (hc : c.ok = true) {σ : MState} (hinv : C05.SInv c σ) (env : CEnv)
-include hms hinv
+variable {ms : MacroSem} (hms : MsOK ms) {lb : Bool} (hlb : lb = true → MsLow ms) {c : Ctx} (hc : c.ok = true) {σ : MState} (hinv : C05.SInv c σ) (env : CEnv)
+include hms hlb hinv
 
-omit hms hinv in
+omit hms hlb hinv in
 theorem compileAssign_sem (lhs : CExpr) (op : String) {a f : CE} (hop : op ∈ assignOps) (hl : lhsOK c lhs = true)
-    (hlc : CarveESem env.assigned lhs = true) (r : CERel ms σ a f) (hs : SortOK ms σ f)
+    (hlc : lhsCarveSem env.assigned op lhs = true) (r : CERel ms σ a f) (hs : SortOK ms σ f)
     (hcv : ∀ cd, compileExpr (fixedEnv env) lhs = .ok cd → assignCarveSem op cd f = true) :
     ResRel (fun x y => CERel ms σ x.2 y.2 ∧ ∀ subs, EEqAt ms subs σ x.1 y.1)
       (compileAssign (codeEnv env) lhs op a) (compileAssign (fixedEnv env) lhs op f) := by
   rw [compileAssign_eq, compileAssign_eq]
-  have hE : compileExpr (codeEnv env) lhs = compileExpr (fixedEnv env) lhs :=
-    expr_asCode_eq_fixed env lhs (carveE_of_sem_lhs hl hlc)
-  rw [hE]
+  -- the compiled target: the same under both lowerings, or (plain `=`) of the same type, which is all `=` uses of it
+  have hmid : ∀ cdF, compileExpr (fixedEnv env) lhs = .ok cdF → ∃ cdA, compileExpr (codeEnv env) lhs = .ok cdA ∧
+      assignMid Cfg.asCode cdA op a = assignMid Cfg.asCode cdF op a ∧
+      ∀ src, assignBack Cfg.asCode cdA op src = assignBack Cfg.asCode cdF op src := by
+    intro cdF hF
+    rcases lhs_compile_rel hl hlc with hE | ⟨hop', cdA, cdF', hA, hF', hty⟩
+    · exact ⟨cdF, hE.trans hF, rfl, fun _ => rfl⟩
+    · have : cdF' = cdF := by
+        have h1 : compileExpr (fixedEnv env) lhs = .ok cdF' := hF'
+        rw [hF] at h1; exact (Except.ok.inj h1).symm
+      subst this
+      subst hop'
+      exact ⟨cdA, hA, assignMid_eq_ty _ hty a, fun src => assignBack_eq _ _ _ src⟩
+  have herr : ∀ m, compileExpr (fixedEnv env) lhs = .error m → ∃ m', compileExpr (codeEnv env) lhs = .error m' := by
+    intro m hF
+    rcases lhs_compile_rel hl hlc with hE | ⟨_, cdA, cdF', hA, hF', _⟩
+    · exact ⟨m, hE.trans hF⟩
+    · have h1 : compileExpr (fixedEnv env) lhs = .ok cdF' := hF'
+      rw [hF] at h1; cases h1
   cases hcd : compileExpr (fixedEnv env) lhs with
-  | error m => trivial
+  | error m =>
+    obtain ⟨m', hA⟩ := herr m hcd
+    rw [hA]; trivial
   | ok cd =>
+    obtain ⟨cdA, hA, hmidA, hbackA⟩ := hmid cd hcd
+    rw [hA]
     have hfull := assignFull_sem cd op hop r hs (hcv cd hcd)
     unfold assignFull at hfull
-    show ResRel _ (assignMid Cfg.asCode cd op a >>= _) (assignMid Cfg.fixed cd op f >>= _)
+    show ResRel _ (assignMid Cfg.asCode cdA op a >>= _) (assignMid Cfg.fixed cd op f >>= _)
+    rw [hmidA]
+    conv => enter [2]; simp only [hbackA]
     cases hA : assignMid Cfg.asCode cd op a with
     | error m =>
       cases hF : assignMid Cfg.fixed cd op f with
@@ -234,12 +289,12 @@ theorem compileAssign_sem (lhs : CExpr) (op : String) {a f : CE} (hop : op ∈ a
         exact ⟨hfull, he⟩
 
 theorem decl_sem (st : TSt) (t : CT) (n : String) (e : CExpr)
-    (hcarve : CarveSSem env (.decl t n (some e)) = true) (hwf : WFES c e = true) :
+    (hcarve : CarveSSem env (.decl t n (some e)) lb = true) (hwf : WFES c e = true) :
     ResRel (SRel ms σ) (compileStmt (codeEnv env) st (.decl t n (some e)))
       (compileStmt (fixedEnv env) st (.decl t n (some e))) := by
   simp only [CarveSSem, Bool.and_eq_true] at hcarve
   simp only [compileStmt]
-  refine (expr_sem hms hinv env e hcarve.1 hwf).bind (fun a f _ hF r => ?_)
+  refine (expr_sem_low hms hlb hinv env e hcarve.1 hwf).bind (fun a f _ hF r => ?_)
   have hcv := hcarve.2; rw [hF] at hcv; simp only at hcv
   have hs := sortOK_fixed hms hinv rfl hwf hF
   have r' := initACast_sem_f t.toVT r hs hcv
@@ -247,11 +302,11 @@ theorem decl_sem (st : TSt) (t : CT) (n : String) (e : CExpr)
   exact ⟨trivial, fun subs => EEqAt.setl n r'.il⟩
 
 theorem store_sem (st : TSt) (w : Nat) (e : CExpr)
-    (hcarve : CarveSSem env (.store w e) = true) (hwf : WFES c e = true) :
+    (hcarve : CarveSSem env (.store w e) lb = true) (hwf : WFES c e = true) :
     ResRel (SRel ms σ) (compileStmt (codeEnv env) st (.store w e)) (compileStmt (fixedEnv env) st (.store w e)) := by
   simp only [CarveSSem, Bool.and_eq_true] at hcarve
   simp only [compileStmt]
-  refine (expr_sem hms hinv env e hcarve.1 hwf).bind (fun a f _ hF r => ?_)
+  refine (expr_sem_low hms hlb hinv env e hcarve.1 hwf).bind (fun a f _ hF r => ?_)
   have hcv := hcarve.2; rw [hF] at hcv; simp only at hcv
   have hs := sortOK_fixed hms hinv rfl hwf hF
   simp only [codeEnv, fixedEnv, ResRel, SRel, ← r.ty]
@@ -275,7 +330,7 @@ theorem store_sem (st : TSt) (w : Nat) (e : CExpr)
       simp only [↓reduceIte]
       exact cast_bfalse_msb r.il (hs.width_le hbf hcv)
 
-omit hms hinv in
+omit hms hlb hinv in
 theorem SInv_setSpecial (hc : c.ok = true) (hinv : C05.SInv c σ) {n : String} (hn : isSpecial n = true) (v : Val) :
     C05.SInv c { σ with locals := setLocal σ.locals n v } := by
   apply hinv.setLocal n v
@@ -289,15 +344,15 @@ theorem SInv_setSpecial (hc : c.ok = true) (hinv : C05.SInv c σ) {n : String} (
 end
 
 section
-variable {ms : MacroSem} (hms : MsOK ms) {c : Ctx} (hc : c.ok = true) {σ : MState} (hinv : C05.SInv c σ) (env : CEnv)
-include hms hc hinv
+variable {ms : MacroSem} (hms : MsOK ms) {lb : Bool} (hlb : lb = true → MsLow ms) {c : Ctx} (hc : c.ok = true) {σ : MState} (hinv : C05.SInv c σ) (env : CEnv)
+include hms hlb hc hinv
 
 theorem jump_sem (st : TSt) (e : CExpr)
-    (hcarve : CarveSSem env (.jump e) = true) (hwf : WFES c e = true) :
+    (hcarve : CarveSSem env (.jump e) lb = true) (hwf : WFES c e = true) :
     ResRel (SRel ms σ) (compileStmt (codeEnv env) st (.jump e)) (compileStmt (fixedEnv env) st (.jump e)) := by
   simp only [CarveSSem, Bool.and_eq_true] at hcarve
   simp only [compileStmt]
-  refine (expr_sem hms hinv env e hcarve.1 hwf).bind (fun a f hA hF r => ?_)
+  refine (expr_sem_low hms hlb hinv env e hcarve.1 hwf).bind (fun a f hA hF r => ?_)
   have hcv := hcarve.2; rw [hF] at hcv; simp only [Bool.or_eq_true, beq_iff_eq] at hcv
   simp only [codeEnv, fixedEnv, ResRel, SRel, ← r.ty]
   refine ⟨trivial, fun subs => EEqAt.seqn (ESeqEqAt.cons_reach (EEqAt.refl _ _) ?_)⟩
@@ -312,7 +367,7 @@ theorem jump_sem (st : TSt) (e : CExpr)
       subst hx
       exact SInv_setSpecial hc hinv (by decide) _
   have r₁ : CERel ms σ₁ a f := by
-    have := expr_sem hms hσ₁ env e hcarve.1 hwf
+    have := expr_sem_low hms hlb hσ₁ env e hcarve.1 hwf
     rw [hA, hF] at this
     exact this
   have hs₁ := sortOK_fixed hms hσ₁ rfl hwf hF
@@ -329,17 +384,17 @@ theorem jump_sem (st : TSt) (e : CExpr)
 end
 
 section
-variable {ms : MacroSem} (hms : MsOK ms) {c : Ctx} {σ : MState} (hinv : C05.SInv c σ) (env : CEnv)
-include hms hinv
+variable {ms : MacroSem} (hms : MsOK ms) {lb : Bool} (hlb : lb = true → MsLow ms) {c : Ctx} {σ : MState} (hinv : C05.SInv c σ) (env : CEnv)
+include hms hlb hinv
 
 theorem assign_sem (st : TSt) (lhs : CExpr) (op : String) (e : CExpr)
-    (hcarve : CarveSSem env (.assign lhs op e) = true) (hl : lhsOK c lhs = true) (hwf : WFES c e = true) :
+    (hcarve : CarveSSem env (.assign lhs op e) lb = true) (hl : lhsOK c lhs = true) (hwf : WFES c e = true) :
     ResRel (SRel ms σ) (compileStmt (codeEnv env) st (.assign lhs op e))
       (compileStmt (fixedEnv env) st (.assign lhs op e)) := by
   simp only [CarveSSem, Bool.and_eq_true, List.contains_eq_mem, decide_eq_true_eq] at hcarve
   obtain ⟨⟨⟨hop, hlc⟩, he⟩, hcv⟩ := hcarve
   simp only [compileStmt]
-  refine (expr_sem hms hinv env e he hwf).bind (fun a f _ hF r => ?_)
+  refine (expr_sem_low hms hlb hinv env e he hwf).bind (fun a f _ hF r => ?_)
   have hs := sortOK_fixed hms hinv rfl hwf hF
   have := compileAssign_sem env lhs op hop hl hlc r hs (fun cd hcd => by rw [hcd, hF] at hcv; exact hcv)
   refine this.bind (fun x y _ _ hxy => ?_)
@@ -347,51 +402,95 @@ theorem assign_sem (st : TSt) (lhs : CExpr) (op : String) (e : CExpr)
   obtain ⟨ef, sf⟩ := y
   exact ⟨rfl, hxy.2⟩
 
-/-- **conditions**: the `BRANCH`/`REPEAT` condition of the code evaluates like the one of the repaired lowering -/
-theorem cond_sem (e : CExpr) (hcarve : CarveESem env.assigned e = true) (hwf : WFES c e = true)
+omit hms hlb hinv in
+/-- the result of `!`/`&&`/`||` is a `BooleanOp` object (whatever the configuration types it as) -/
+theorem kind_of_isNotLog {env : CEnv} {e : CExpr} {a : CE} (hn : isNotLog e = true)
+    (hA : compileExpr env e = .ok a) : a.kind = .boolObj := by
+  cases e with
+  | not x =>
+    rw [compileExpr_not] at hA
+    obtain ⟨cx, _, h⟩ := C05.bind_ok hA
+    simp only [Except.ok.injEq] at h
+    rw [← h]
+  | log op x y =>
+    rw [compileExpr_log] at hA
+    obtain ⟨cx, _, h⟩ := C05.bind_ok hA
+    obtain ⟨cy, _, h⟩ := C05.bind_ok h
+    simp only [Except.ok.injEq] at h
+    rw [← h]
+  | _ => simp [isNotLog] at hn
+
+omit hms hlb hinv in
+theorem carveNSem_of_carveCSem {e : CExpr} (h : CarveCSem env e lb = true) : CarveNSem env.assigned e lb = true := by
+  unfold CarveCSem at h
+  simp only [Bool.and_eq_true] at h
+  exact h.1
+
+/-- a condition in the condition-position carve-out: the two lowerings fail together -/
+theorem cond_res_sem (e : CExpr) (hcarve : CarveCSem env e lb = true) (hwf : WFES c e = true) :
+    ResRel (fun a f => CERel ms σ (normTy e a) f) (compileExpr (codeEnv env) e) (compileExpr (fixedEnv env) e) :=
+  expr_sem_upto_boolTy_low hms hlb hinv env.assigned e (carveNSem_of_carveCSem env hcarve) hwf
+
+/-- **conditions**: the `BRANCH`/`REPEAT` condition of the code evaluates like the one of the repaired lowering, on the
+    condition-position carve-out `CarveCSem`: a `!`/`&&`/`||` at the top is typed differently by the two lowerings
+    (`normTy`), but its IL boolean is the condition as it is for both of them. -/
+theorem cond_sem (e : CExpr) (hcarve : CarveCSem env e lb = true) (hwf : WFES c e = true)
+    {a : CE} (hA : compileExpr (codeEnv env) e = .ok a) :
+    ∃ f, compileExpr (fixedEnv env) e = .ok f ∧ PEqAt ms σ [] (condIL Cfg.asCode a) (condIL Cfg.fixed f) := by
+  obtain ⟨f, hF, r⟩ := (cond_res_sem hms hlb hinv env e hcarve hwf).ok_left hA
+  refine ⟨f, hF, condIL_sem e r ?_⟩
+  unfold CarveCSem at hcarve
+  simp only [Bool.and_eq_true, Bool.or_eq_true] at hcarve
+  unfold condSafe
+  by_cases hn : isNotLog e = true
+  · rw [kind_of_isNotLog hn hA, hn]; rfl
+  · have hok := hcarve.2.resolve_left hn
+    rw [hF] at hok
+    simp only [condOK] at hok
+    have hn' : isNotLog e = false := by simpa using hn
+    rw [normTy_of_not hn'] at r
+    rw [hn', r.kind, r.ty, Bool.false_or]
+    exact hok
+
+/-- `cond_sem` in the form it had before the condition-position carve-out existed: a VALUE-carved condition whose
+    repaired compilation is `condOK` -/
+theorem cond_sem_value (e : CExpr) (hcarve : CarveESem env.assigned e lb = true) (hwf : WFES c e = true)
     {a : CE} (hA : compileExpr (codeEnv env) e = .ok a)
     (hok : ∀ f, compileExpr (fixedEnv env) e = .ok f → condOK f = true) :
     ∃ f, compileExpr (fixedEnv env) e = .ok f ∧ PEqAt ms σ [] (condIL Cfg.asCode a) (condIL Cfg.fixed f) := by
-  obtain ⟨f, hF, r⟩ := (expr_sem hms hinv env e hcarve hwf).ok_left hA
-  refine ⟨f, hF, ?_⟩
-  have hco := hok f hF
-  simp only [condOK, beq_iff_eq] at hco
-  simp only [condIL, cfgsimp, ↓reduceIte, Bool.false_eq_true, condILk]
-  by_cases hk : f.kind = .boolObj
-  · have hfl : f.ty.hasFlag VT.gBOOL = true := by rw [← hco]; simp [hk]
-    simp only [r.kind, hk, hfl, ↓reduceIte]
-    exact r.il
-  · have hfl : f.ty.hasFlag VT.gBOOL = false := by rw [← hco]; simp [hk]
-    simp only [hfl, Bool.false_eq_true, ↓reduceIte]
-    have hka : a.kind ≠ .boolObj := r.kind ▸ hk
-    split
-    · next h => exact absurd h hka
-    · exact PEqAt.un _ r.il
+  refine cond_sem hms hlb hinv env e ?_ hwf hA
+  unfold CarveESem at hcarve
+  unfold CarveCSem
+  simp only [Bool.and_eq_true, Bool.or_eq_true] at hcarve ⊢
+  refine ⟨hcarve.1, Or.inr ?_⟩
+  split
+  · next cc hcc => exact hok cc hcc
+  · rfl
 
 end
 
 /-! ## all statements: the two lowerings fail together and register the same immediates -/
 
 section
-variable {ms : MacroSem} (hms : MsOK ms) {c : Ctx} (hc : c.ok = true) {σ : MState} (hinv : C05.SInv c σ) (env : CEnv)
-include hms hc hinv
+variable {ms : MacroSem} (hms : MsOK ms) {lb : Bool} (hlb : lb = true → MsLow ms) {c : Ctx} (hc : c.ok = true) {σ : MState} (hinv : C05.SInv c σ) (env : CEnv)
+include hms hlb hc hinv
 
 /-- only the `TSt` component -/
 def TStRel (x y : ILEffect × TSt) : Prop := x.2 = y.2
 def TStsRel (x y : List ILEffect × TSt) : Prop := x.2 = y.2
 
-omit hms hc hinv in
+omit hms hlb hc hinv in
 theorem SRel.st {ms σ} {x y : ILEffect × TSt} (h : SRel ms σ x y) : TStRel x y := h.1
 
 set_option linter.unusedSectionVars false in
 mutual
 theorem stmt_state_sem :
-    (s : CStmt) → (st : TSt) → CarveSSem env s = true → WFStmt c s = true → (exprsOf s).all (WFES c) = true →
+    (s : CStmt) → (st : TSt) → CarveSSem env s lb = true → WFStmt c s = true → (exprsOf s).all (WFES c) = true →
       ResRel TStRel (compileStmt (codeEnv env) st s) (compileStmt (fixedEnv env) st s)
   | .decl _ _ none, st, _, _, _ => by simp only [compileStmt, ResRel, TStRel]
   | .decl t n (some e), st, h, _, hwfe => by
       simp only [exprsOf, List.all_cons, List.all_nil, Bool.and_true] at hwfe
-      exact (decl_sem hms hinv env st t n e h hwfe).mono (fun _ _ h => h.st)
+      exact (decl_sem hms hlb hinv env st t n e h hwfe).mono (fun _ _ h => h.st)
   | .assign lhs op e, st, h, hwf, hwfe => by
       simp only [WFStmt, Bool.and_eq_true] at hwf
       have hwe : WFES c e = true := by
@@ -399,7 +498,7 @@ theorem stmt_state_sem :
         split at hwfe <;> simp only [List.all_cons, List.all_nil, Bool.and_true, Bool.and_eq_true] at hwfe
         · exact hwfe
         · exact hwfe.2
-      exact (assign_sem hms hinv env st lhs op e h hwf.2 hwe).mono (fun _ _ h => h.st)
+      exact (assign_sem hms hlb hinv env st lhs op e h hwf.2 hwe).mono (fun _ _ h => h.st)
   | .chain l1 l2 op2 e, st, h, _, _ => by
       rw [CarveSSem] at h
       rw [C05.T2_chain (C05.exprT2_of_C02 env) st l1 l2 op2 e h]
@@ -408,10 +507,10 @@ theorem stmt_state_sem :
       | ok r => exact rfl
   | .store w e, st, h, _, hwfe => by
       simp only [exprsOf, List.all_cons, List.all_nil, Bool.and_true] at hwfe
-      exact (store_sem hms hinv env st w e h hwfe).mono (fun _ _ h => h.st)
+      exact (store_sem hms hlb hinv env st w e h hwfe).mono (fun _ _ h => h.st)
   | .jump e, st, h, _, hwfe => by
       simp only [exprsOf, List.all_cons, List.all_nil, Bool.and_true] at hwfe
-      exact (jump_sem hms hc hinv env st e h hwfe).mono (fun _ _ h => h.st)
+      exact (jump_sem hms hlb hc hinv env st e h hwfe).mono (fun _ _ h => h.st)
   | .skip w, st, _, _, _ => by
       simp only [compileStmt]
       split
@@ -421,26 +520,26 @@ theorem stmt_state_sem :
       simp only [CarveSSem] at h
       simp only [exprsOf, List.all_cons, List.all_nil, Bool.and_true] at hwfe
       simp only [compileStmt]
-      exact (expr_sem hms hinv env e h hwfe).bind (fun _ _ _ _ _ => rfl)
+      exact (expr_sem_low hms hlb hinv env e h hwfe).bind (fun _ _ _ _ _ => rfl)
   | .ret e, st, _, _, _ => by simp only [compileStmt]; trivial
   | .ite x t none, st, h, hwf, hwfe => by
       simp only [CarveSSem, Bool.and_eq_true] at h
-      obtain ⟨⟨⟨hx, _⟩, ht⟩, _⟩ := h
+      obtain ⟨⟨hx, ht⟩, _⟩ := h
       simp only [WFStmt, Bool.and_eq_true] at hwf
       simp only [exprsOf, List.all_cons, List.all_append, Bool.and_eq_true] at hwfe
       simp only [compileStmt]
-      refine (expr_sem hms hinv env x hx hwfe.1).bind (fun a f _ _ _ => ?_)
+      refine (cond_res_sem hms hlb hinv env x hx hwfe.1).bind (fun a f _ _ _ => ?_)
       refine (stmts_state_sem t _ ht hwf.1 hwfe.2.1).bind (fun p q _ _ hpq => ?_)
       obtain ⟨ts, s1⟩ := p
       obtain ⟨ts', s2⟩ := q
       exact hpq
   | .ite x t (some e), st, h, hwf, hwfe => by
       simp only [CarveSSem, Bool.and_eq_true] at h
-      obtain ⟨⟨⟨hx, _⟩, ht⟩, hee⟩ := h
+      obtain ⟨⟨hx, ht⟩, hee⟩ := h
       simp only [WFStmt, Bool.and_eq_true] at hwf
       simp only [exprsOf, List.all_cons, List.all_append, Bool.and_eq_true] at hwfe
       simp only [compileStmt]
-      refine (expr_sem hms hinv env x hx hwfe.1).bind (fun a f _ _ _ => ?_)
+      refine (cond_res_sem hms hlb hinv env x hx hwfe.1).bind (fun a f _ _ _ => ?_)
       refine (stmts_state_sem t _ ht hwf.1 hwfe.2.1).bind (fun p q _ _ hpq => ?_)
       obtain ⟨ts, s1⟩ := p
       obtain ⟨ts', s2⟩ := q
@@ -452,19 +551,19 @@ theorem stmt_state_sem :
       exact hpq
   | .for_ v x step b, st, h, hwf, hwfe => by
       simp only [CarveSSem, Bool.and_eq_true, beq_iff_eq] at h
-      obtain ⟨⟨⟨hs, hx⟩, _⟩, hb⟩ := h
+      obtain ⟨⟨hs, hx⟩, hb⟩ := h
       subst hs
       simp only [WFStmt, Bool.and_eq_true] at hwf
       simp only [exprsOf, List.all_cons, Bool.and_eq_true] at hwfe
       simp only [compileStmt]
-      refine (expr_sem hms hinv env x hx hwfe.1).bind (fun a f _ _ _ => ?_)
+      refine (cond_res_sem hms hlb hinv env x hx hwfe.1).bind (fun a f _ _ _ => ?_)
       simp only [beq_self_eq_true, ↓reduceIte]
       refine (stmts_state_sem b _ hb hwf.2 hwfe.2).bind (fun p q _ _ hpq => ?_)
       obtain ⟨bs, s1⟩ := p
       obtain ⟨bs', s2⟩ := q
       exact hpq
 theorem stmts_state_sem :
-    (ss : List CStmt) → (st : TSt) → CarveSsSem env ss = true → WFStmts c ss = true →
+    (ss : List CStmt) → (st : TSt) → CarveSsSem env ss lb = true → WFStmts c ss = true →
       (exprsOfList ss).all (WFES c) = true →
       ResRel TStsRel (compileStmts (codeEnv env) st ss) (compileStmts (fixedEnv env) st ss)
   | [], st, _, _, _ => by simp only [compileStmts, ResRel, TStsRel]
